@@ -22,6 +22,7 @@ DEFAULT_INNER_TAG_MAP = {
     "if": ["else", "elsif"],
     "case": ["when", "else"],
     "unless": ["else", "elsif"],
+    "translate": ["plural"],
 }
 
 
@@ -68,7 +69,13 @@ class TagAnalysis:
         self.all_tags = self._all_tags(tokens)
 
         # Reverse map of inner tags to possible enclosing block tags.
-        inner_tags = inner_tags or DEFAULT_INNER_TAG_MAP
+        # By default, only blocks that are registered with the environment have
+        # inner tags.
+        inner_tags = inner_tags or {
+            tag: inner
+            for tag, inner in DEFAULT_INNER_TAG_MAP.items()
+            if tag in env.tags
+        }
         self._inner_tags = defaultdict(set)
         for tag, inner in inner_tags.items():
             for inner_tag in inner:
